@@ -4,7 +4,7 @@ then build pillars *by name* (format! + from_name) can be executed symbolically 
 Every axiom below is a fact about repository code that is discharged by another obligation of this framework
 (named in AXIOMS); the evidence of each kernel lists the axioms it used."""
 import re, os
-from .mir import T, I, Rec, Ref, Tup, Opaque, Bytes, IFloat, HalfFloat, Unsupported, cmp, arith, app, SymOption, VecV
+from .mir import T, I, Rec, Ref, Tup, Opaque, Bytes, IFloat, HalfFloat, Unsupported, cmp, arith, app, SymOption, VecV, IterV, Variant
 
 SIZES = {"Animal": 28, "Beast": 4, "Constellation": 12, "Direction": 9, "Duty": 12, "Element": 5, "God": 151, "Land": 9, "Luck": 2, "Phase": 30, "Sixty": 3,
          "Sound": 30, "Taboo": 141, "Ten": 6, "Terrain": 12, "Twenty": 9, "Week": 7, "Zodiac": 12, "Zone": 4, "Dog": 3, "Nine": 9, "PlumRain": 2, "Phenology": 72,
@@ -146,6 +146,20 @@ class Model:
                     fr["vals"][ref.local] = nv
                 return True, Opaque("unit")
             raise Unsupported("Vec::push on something that is not a modelled local vector")
+        if re.match(r"^<Vec<.*> as IntoIterator>::into_iter$", callee) and isinstance(a[0], VecV):
+            return True, IterV(list(a[0].items))
+        if re.match(r"^<(std::)?vec::IntoIter<.*> as Iterator>::next$", callee):
+            ref = args[0]
+            it = a[0]
+            if isinstance(ref, Ref) and not ref.proj and isinstance(it, IterV):
+                if not it.items:
+                    return True, Variant("None", None)
+                nv = IterV(it.items[1:])
+                ref.frame["vals"][ref.local] = nv
+                if fr["fn"] is ref.frame["fn"]:
+                    fr["vals"][ref.local] = nv
+                return True, Variant("Some", it.items[0])
+            raise Unsupported("vec::IntoIter::next on something that is not a modelled iterator")
         if re.match(r"^<(std::ops::)?Range<\w+> as Iterator>::step_by$", callee) and isinstance(a[0], Rec) and getattr(a[0], "named", None) and isinstance(a[1], T) and a[1].c:
             r = Rec(ctx, a[0].name + "/step", None)
             r.named = dict(a[0].named, step=a[1])
